@@ -92,7 +92,7 @@ namespace Pistache::Http::Experimental
         // returns false when the connection can not be used any more (the response could not
         // be parsed, or bytes arrived that no request is waiting for): the caller drops it and
         // fails the request in flight with the reason left in responseError()
-        bool handleResponsePacket(const char* buffer, size_t totalBytes);
+        bool handleResponsePacket(const char* buffer, size_t totalBytes, bool closeBeforeDone = false);
         const std::string& responseError() const { return responseError_; }
         void handleError(const char* error);
         void handleTimeout();
